@@ -58,6 +58,7 @@ Proof.
   - reflexivity.
   - (* aliasing an own object under a second attribute: SAlias brings in nothing from outside the receiver *)
     destruct (zmem _ _); [reflexivity|]. destruct (zmem _ _); [reflexivity|]. destruct (_ =? _); reflexivity.
+  - destruct (zmem _ _); [destruct (Nat.eqb _ _)|]; reflexivity.
 Qed.
 
 (* ------------------------------------------------------------------ histories of operations *)
@@ -65,12 +66,18 @@ Definition hevent_ok (e : hevent) : bool :=
   match e with
   | HOps _ _ => true
   | HEv e => event_ok e
+  | HCopySeries _ _ _ _ => true
+  | HAddVarFrom _ _ _ _ => true
+  | HInitFrom ci a _ _ _ => event_ok (EInit ci a)
   end.
 
 Definition hreceiver (e : hevent) : option nat :=
   match e with
   | HOps i _ => Some i
   | HEv e => receiver e
+  | HCopySeries i _ _ _ => Some i
+  | HAddVarFrom i _ _ _ => Some i
+  | HInitFrom _ _ _ _ _ => None
   end.
 
 Lemma fop_independent K s i o :
@@ -120,11 +127,30 @@ Theorem hevent_independent K s e :
   (forall j rj, nth_error (sroots s) j = Some rj -> hreceiver e <> Some j ->
                 same_subheap (sh s) (sh (run_hevent K s e)) rj).
 Proof.
-  intros RO OK. destruct e as [i os|e].
+  intros RO OK. destruct e as [i os|e|i j0 sn dn|i j0 sn dn|ci a j0 sn dn].
   - destruct (hops_independent K i os s RO) as (RO1 & R1 & U1).
     split; [exact RO1|]. split; [exists []; rewrite app_nil_r; exact R1|].
     intros j rj Hj Nj. apply (U1 j rj Hj). intros ->. apply Nj. reflexivity.
   - exact (event_independent K s e RO OK).
+  - (* the values of another object's series are READ and written into the receiver's own array *)
+    cbn [run_hevent hreceiver]. destruct (nth_error (sroots s) j0) as [rj0|].
+    + destruct (fop_independent K s i (OReplaceSeries dn (scalars_path (sh s) rj0 [V sn])) RO) as (RO1 & R1 & U1).
+      split; [exact RO1|]. split; [exists []; rewrite app_nil_r; exact R1|].
+      intros j rj Hj Nj. apply (U1 j rj Hj). intros ->. apply Nj. reflexivity.
+    + split; [exact RO|]. split; [exists []; rewrite app_nil_r; reflexivity|]. intros; apply same_subheap_refl.
+  - cbn [run_hevent hreceiver]. destruct (nth_error (sroots s) j0) as [rj0|].
+    + destruct (fop_independent K s i (OAddVariable dn (arr_dtype (sh s) rj0 [V sn]) (scalars_path (sh s) rj0 [V sn])) RO) as (RO1 & R1 & U1).
+      split; [exact RO1|]. split; [exists []; rewrite app_nil_r; exact R1|].
+      intros j rj Hj Nj. apply (U1 j rj Hj). intros ->. apply Nj. reflexivity.
+    + split; [exact RO|]. split; [exists []; rewrite app_nil_r; reflexivity|]. intros; apply same_subheap_refl.
+  - (* an initial value read from another object's array: the new instance gets an array of its own *)
+    cbn [run_hevent hreceiver hevent_ok] in *. destruct (nth_error (sroots s) j0) as [rj0|].
+    + set (a' := mkIargs (ia_span a) (ia_n a) (ia_strict a) (ia_dtype a) (ia_adt a) (ia_default a) (ia_engine a)
+                         ((dn, scalars_path (sh s) rj0 [V sn]) :: ia_initial a) (ia_linker a)).
+      assert (OK' : event_ok (EInit ci a') = true) by exact OK.
+      destruct (event_independent K s (EInit ci a') RO OK') as (RO1 & N1 & U1).
+      split; [exact RO1|]. split; [exact N1|]. intros j rj Hj _. apply (U1 j rj Hj). cbn. discriminate.
+    + split; [exact RO|]. split; [exists []; rewrite app_nil_r; reflexivity|]. intros; apply same_subheap_refl.
 Qed.
 
 (* ALL histories of operations (compiled against the current heap), copies, instantiations *)
